@@ -289,6 +289,23 @@ fn random_fbig(rng: &mut Rng, max_prec: usize, far: i64) -> Value {
         "a": {"sig": enc_i(&sig), "exp": exp, "inf": 0, "prec": prec}})
 }
 
+/// a float whose fractional part alone is wider than a machine word of either size (33..190 digits behind the point, in
+/// base 2, 10 or 16), with 1..70 digits in front of it: the by-reference splits cut it inside a word
+fn random_fbig_wide(rng: &mut Rng, j: u64) -> Value {
+    let base = *rng.pick(&[2u64, 2, 10, 16]);
+    let mode = MODES[(j % MODES.len() as u64) as usize];
+    let op = FOPS[(j / 3 % FOPS.len() as u64) as usize];
+    let span = if rng.coin() { 40 } else { 158 };
+    let frac = 33 + rng.below(span) as usize;
+    let int = 1 + rng.below(70) as usize;
+    let d = frac + int;
+    let pat = if rng.below(3) == 0 { 2 } else { rng.next() };
+    let mag = rand_mag(rng, base, d, pat);
+    let sig = sign_it(rng, mag);
+    json!({"op": op, "base": base, "mode": mode, "kind": "wide-fraction", "q": 1 + rng.below(d as u64) as usize,
+        "a": {"sig": enc_i(&sig), "exp": -(frac as i64), "inf": 0, "prec": if j % 5 == 0 { 0 } else { d }}})
+}
+
 fn random_ratio(rng: &mut Rng, max_words: usize) -> Value {
     let op = *rng.pick(&["r_trunc", "r_floor", "r_ceil", "r_round", "r_round", "r_fract", "r_split"]);
     let ty = if rng.coin() { "RBig" } else { "Relaxed" };
@@ -471,6 +488,13 @@ fn main() {
             _ => random_prim(&mut rng, 80),
         };
         dispatch(&mut log, &c, "rnd");
+    }
+    if let Some(i) = args.extra.iter().position(|a| a == "--wide-frac") {
+        let k: u64 = args.extra[i + 1].parse().unwrap();
+        for j in 0..k {
+            let c = random_fbig_wide(&mut rng, j);
+            dispatch(&mut log, &c, "wide");
+        }
     }
     huge_prims(&mut log, &huge);
     if args.n > 0 {
